@@ -66,6 +66,10 @@ TOKENS = ['x', 'y', 'z', 'w', 'é', 'a b', 'Q', 'x1', 'yy', '-1', 'nan', 'None',
 # tokens that contain OTHER columns' separators (legal under a separator they do not contain)
 TOKENS_WITH_SEP = ['x/y', 'y,z', 'p|q', 'u;v', 'a:b', 'x,y', 'z/w']
 SEPS = ['|', ',', ';', '::', '/']
+# separators of several characters, most of them a core character with blank padding (what a user picks when the bare
+# character may occur inside a token: 'Washington,DC' under ', '); tokens may then contain every proper fragment of the
+# separator (`sep_fragments`), only not the separator itself
+SEPS_MULTI = [', ', ' | ', '; ', ' ; ', ' / ', ' :: ', ' - ', '--', '->', ' and ', '||', ', and ', '\t|\t', '| ', ' ,', ' + ', '<br>']
 ATOMS = ['x', 'y', 'z', 'w', 'é', 'yy']
 TEXTS = ['hello', 'wörld', '', 'a b c', 'Hello', 'olleh', '12', 'the quick brown fox', ' pad ', 'None', 'nan', '<NA>',
          'a\x00', '-1']
@@ -91,6 +95,41 @@ TIME_FORMATS = [
     (None, '%Y-%m-%d %H:%M:%S.%f', 1, True, False),
     (None, '%Y-%m-%dT%H:%M:%S%z', 1, False, True),
 ]
+# the wider range of strftime directives a user may put into col_to_time_format: 12-hour clock with AM/PM (%I %p), two-digit
+# years (%y: 1969-2068), day of the year (%j), month / weekday names (%b %B %a %A), week numbers (%U %W %G %V %u), the
+# locale's date / time representation (%c %x %X, C locale), time before date, undelimited fields, sub-second (%f) and offset (%z)
+# parts combined with them; date-only patterns with names.  (format, strftime format, resolution in seconds, sub-second,
+# offset, (first year, last year) or None)
+TIME_FORMATS_RICH = [
+    ('%m/%d/%Y %I:%M:%S %p', '%m/%d/%Y %I:%M:%S %p', 1, False, False, None),
+    ('%d-%b-%Y %I:%M %p', '%d-%b-%Y %I:%M %p', 60, False, False, None),
+    ('%b %d, %Y %I:%M:%S %p', '%b %d, %Y %I:%M:%S %p', 1, False, False, None),
+    ('%A, %B %d, %Y %I:%M %p', '%A, %B %d, %Y %I:%M %p', 60, False, False, None),
+    ('%I:%M:%S %p %d.%m.%Y', '%I:%M:%S %p %d.%m.%Y', 1, False, False, None),
+    ('%Y-%m-%dT%I:%M:%S%p', '%Y-%m-%dT%I:%M:%S%p', 1, False, False, None),
+    ('%Y-%m-%d %I %p', '%Y-%m-%d %I %p', 3600, False, False, None),
+    ('%Y-%m-%d %I:%M:%S.%f %p', '%Y-%m-%d %I:%M:%S.%f %p', 1, True, False, None),
+    ('%Y-%m-%d %I:%M:%S %p %z', '%Y-%m-%d %I:%M:%S %p %z', 1, False, True, None),
+    ('%d/%m/%y %I:%M:%S%p%z', '%d/%m/%y %I:%M:%S%p%z', 1, False, True, (1969, 2068)),
+    ('%y-%m-%d %H:%M:%S', '%y-%m-%d %H:%M:%S', 1, False, False, (1969, 2068)),
+    ('%y%m%d %I%M%S%p', '%y%m%d %I%M%S%p', 1, False, False, (1969, 2068)),
+    ('%Y-%j %H:%M:%S', '%Y-%j %H:%M:%S', 1, False, False, None),
+    ('%Y.%j.%H.%M.%S.%f', '%Y.%j.%H.%M.%S.%f', 1, True, False, None),
+    ('%d %B %Y %H:%M:%S', '%d %B %Y %H:%M:%S', 1, False, False, None),
+    ('%a %d %b %Y %H:%M:%S', '%a %d %b %Y %H:%M:%S', 1, False, False, None),
+    ('%H:%M:%S %Y-%m-%d', '%H:%M:%S %Y-%m-%d', 1, False, False, None),
+    ('%Y%m%d%H%M%S', '%Y%m%d%H%M%S', 1, False, False, None),
+    ('%c', '%c', 1, False, False, None),
+    ('%Y-%m-%d %X', '%Y-%m-%d %X', 1, False, False, None),
+    ('%x %X', '%x %X', 1, False, False, (1969, 2068)),
+    ('%Y-%U-%w %H:%M:%S', '%Y-%U-%w %H:%M:%S', 1, False, False, None),
+    ('%Y-%W-%w %H:%M:%S', '%Y-%W-%w %H:%M:%S', 1, False, False, None),
+    ('%G-W%V-%u %H:%M:%S', '%G-W%V-%u %H:%M:%S', 1, False, False, None),
+    ('%d %b %Y', '%d %b %Y', 86400, False, False, None),
+    ('%B %d, %Y', '%B %d, %Y', 86400, False, False, None),
+    ('%y%j', '%y%j', 86400, False, False, (1969, 2068)),
+]
+RICH_DIRECTIVES = ('%I', '%y', '%j', '%b', '%B', '%a', '%A', '%c', '%X', '%x', '%U', '%W', '%V')
 TZ_MINUTES = [-720, -480, -210, 0, 60, 330, 345, 840]
 TZ_NAMES = ['UTC', 'Etc/GMT+8', 'Etc/GMT-14', 'Etc/GMT+12', '+05:30', '-03:30', '+00:00']
 FRACS_US = [0, 1, 499999, 500000, 500001, 700000, 999999]
@@ -199,16 +238,20 @@ def _missing_rate(rng):
     return rng.choice([0.0, 0.0, 0.15, 0.3, 0.6])
 
 
-def gen_time(rng):
+def gen_time(rng, years=None):
+    """a wall-clock epoch second in 1700-2200 (or in the year window a two-digit-year format can express)"""
     mode = rng.random()
+    lo, hi = years or (1700, 2200)
     if mode < 0.25:
-        y = rng.choice([1700, 1800, 1900, 1999, 2000, 2001, 2100, 2199, 2200, 1970, 1969, 2024, 2038])
+        y = rng.choice([y for y in (1700, 1800, 1900, 1999, 2000, 2001, 2100, 2199, 2200, 1970, 1969, 2024, 2038, 2068)
+                        if lo <= y <= hi])
         mo, d = rng.choice([(1, 1), (12, 31), (2, 28), (3, 1), (2, 29), (6, 30), (7, 31)])
         if (mo, d) == (2, 29) and not (y % 4 == 0 and (y % 100 != 0 or y % 400 == 0)):
             d = 28
-        h, mi, s = rng.choice([(0, 0, 0), (23, 59, 59), (12, 0, 0), (0, 0, 1), (23, 59, 59)])
+        h, mi, s = rng.choice([(0, 0, 0), (23, 59, 59), (12, 0, 0), (0, 0, 1), (23, 59, 59), (12, 59, 59), (0, 30, 0),
+                               (11, 59, 59), (13, 0, 0)])
         return epoch_of(y, mo, d, h, mi, s)
-    y = rng.randint(1700, 2200)
+    y = rng.randint(lo, hi)
     mo = rng.randint(1, 12)
     d = rng.randint(1, 28)
     return epoch_of(y, mo, d, rng.randint(0, 23), rng.randint(0, 59), rng.choice([rng.randint(0, 59), 59]))
@@ -238,6 +281,46 @@ def synth_values(rng, k, long=None):
         add(f'{prefixes[i % len(prefixes)]}{i // len(prefixes)}')
         i += 1
     return out
+
+
+def sep_fragments(sep):
+    """the non-blank proper pieces of a separator that a token may legally contain: its whitespace-stripped core, every
+    proper prefix / suffix and every single character (stripped); a one-character separator has none"""
+    out = []
+    for f in [sep.strip()] + [sep[:i] for i in range(1, len(sep))] + [sep[i:] for i in range(1, len(sep))] + list(sep):
+        f = f.strip()
+        if f and f != sep and f not in out:
+            out.append(f)
+    return out
+
+
+def fragment_tokens(rng, sep):
+    """tokens built around fragments of the separator ('x,y', ',y', 'x,', ',' under ', ')"""
+    out = []
+    for f in sep_fragments(sep):
+        a, b = rng.choice(ATOMS), rng.choice(ATOMS)
+        for t in (a + f + b, f + b, a + f, f, a + f + f + b):
+            if sep not in t and t == t.strip() and t not in out:
+                out.append(t)
+    return out
+
+
+def cell_text(r, c, i):
+    """the text a delimiter-joined multicategorical cell (non-empty token list) is written as: tokens with their blank
+    padding, joined by the column's separator"""
+    if r.get('pad'):
+        a, b = r['pad']
+        return r['sep'].join(' ' * a + t + ' ' * b for t in c)
+    pads_all = r.get('pads')
+    pads = pads_all[i % len(pads_all)] if pads_all else None
+    if pads is None or len(pads) != len(c):
+        return r['sep'].join(c)
+    return r['sep'].join(' ' * p[0] + t + ' ' * p[1] for t, p in zip(c, pads))
+
+
+def sep_roundtrip(r, c):
+    """does the text of a non-empty token list split back into exactly these tokens (Python's str.split + strip)?"""
+    return [t.strip() for t in cell_text(r, c, 0).split(r['sep'])] == list(c)
 
 
 def synth_tokens(rng, k, sep, long=None):
@@ -292,6 +375,8 @@ def gen_col(rng, name, st, n, target_kind=None, opt=None):
             dt = 'Int64' if has_na else rng.choice(['int64', 'Int64'])
         else:
             dt = rng.choice(['float64', 'float64', 'float32'])
+        if target_kind is not None and dt != 'float32' and rng.random() < 0.25:
+            dt = 'float32'      # (labels stored in the library's default dtype: the one column a mapper could pass through uncopied)
         col['r'] = {'dtype': dt}
         col['mode'] = mode
     elif st == 'categorical':
@@ -346,13 +431,22 @@ def gen_col(rng, name, st, n, target_kind=None, opt=None):
             col['k'] = k
     elif st == 'multicategorical':
         how = rng.choice(['sep', 'sep', 'list'])
-        sep = rng.choice(SEPS)
+        sep = rng.choice(SEPS_MULTI) if rng.random() < 0.35 else rng.choice(SEPS)
         k = opt.get('k', rng.randint(1, 6))
         if opt.get('k') or opt.get('long'):
             pool = synth_tokens(rng, k, sep if how == 'sep' else None, opt.get('long'))
+            if how == 'sep' and len(sep) > 1 and opt.get('k'):
+                pool = (fragment_tokens(rng, sep)[:3] + pool)[:max(k, 1)]
         else:
-            cand = [t for t in TOKENS + TOKENS_WITH_SEP if how == 'list' or not (set(t) & set(sep))]
+            # a token may contain pieces of the separator (and other columns' separators), only not the separator itself
+            cand = [t for t in TOKENS + TOKENS_WITH_SEP if how == 'list' or sep not in t]
             pool = rng.sample(cand, min(k, len(cand)))
+            frags = fragment_tokens(rng, sep) if how == 'sep' else []
+            if frags and rng.random() < 0.8:
+                for t in rng.sample(frags, min(len(frags), rng.choice([1, 1, 2, 3]))):
+                    if t not in pool:
+                        pool[rng.randrange(len(pool))] = t
+                pool = list(dict.fromkeys(pool))
         k = len(pool)
         big = opt.get('m')
         def cell():
@@ -389,6 +483,29 @@ def gen_col(rng, name, st, n, target_kind=None, opt=None):
                     'box': rng.choice(['list', 'list', 'tuple', 'ndarray', 'set']) if how == 'list' else None,
                     'na': rng.choice(['None', 'nan']), 'pads': pads,
                     'blank': [rng.choice([0, 0, 1, 3]) for _ in cells[:64]]}
+        if how == 'sep' and len(sep) > 1:
+            # ONE padding for every token of the column (a function of the column, not of the row position, so that a row
+            # reads the same in every selection of the frame).  A token that ends / starts with a fragment of the separator
+            # can merge with the padding or the neighbouring separator into an earlier occurrence of it ('a:' + '::' + 'b'):
+            # such a text does not denote the token list under ANY reading of "delimiter-joined", so the cell's tokens are
+            # replaced by fragment-free ones until the text splits back into its tokens by Python's own str.split
+            col['r']['pads'] = None
+            col['r']['pad'] = [0, 0] if heavy else [rng.choice([0, 0, 1, 2]), rng.choice([0, 0, 1])]
+            frs = sep_fragments(sep)
+            plain = [t for t in pool if not any(f in t for f in frs)] or ['x']
+            for i, c in enumerate(cells):
+                if not c:
+                    continue
+                for attempt in range(4):
+                    if sep_roundtrip(col['r'], c):
+                        break
+                    if attempt == 0:
+                        c = [t if k2 % 2 == 0 else rng.choice(plain) for k2, t in enumerate(c)]
+                    elif attempt == 1:
+                        c = [t if k2 == 0 else rng.choice(plain) for k2, t in enumerate(c)]
+                    else:
+                        c = [rng.choice(plain) for _ in c] if attempt == 2 else [plain[0]]
+                cells[i] = c
         if opt.get('k'):
             col['k'] = k
     elif st == 'sequence_numerical':
@@ -409,16 +526,20 @@ def gen_col(rng, name, st, n, target_kind=None, opt=None):
         col['r'] = {'na': rng.choice(['None', 'nan']), 'ints': rng.random() < 0.15}
     elif st == 'timestamp':
         kind = rng.choice(['str', 'str', 'str', 'str', 'dt64', 'dt64', 'dt64tz', 'pyobj'])
-        fmt, pyfmt, res, has_f, has_z = rng.choice(TIME_FORMATS)
+        fmt, pyfmt, res, has_f, has_z, years = (tuple(rng.choice(TIME_FORMATS)) + (None,)) if rng.random() < 0.55 else \
+            rng.choice(TIME_FORMATS_RICH)
         shared = opt.get('shared_time')
         if shared:
             kind = 'str'
-            fmt, pyfmt, res, has_f, has_z = shared['fmt'], shared['fmt'], 1, False, False
+            fmt, pyfmt, res, has_f, has_z, years = shared['fmt'], shared['fmt'], 1, False, False, None
         unit = rng.choice(['s', 'ms', 'us', 'ns'])
         r = {'kind': kind, 'fmt': fmt, 'pyfmt': pyfmt, 'dtype': rng.choice(['object', 'str', 'object', 'str', 'string']),
              'unit': unit, 'na': rng.choice(['None', 'nan']), 'frac': None, 'tz': None}
         if kind != 'str':
-            res, r['fmt'], r['pyfmt'] = 1, None, None
+            # the column already holds datetimes: a format configured for it anyway (one string for all timestamp columns, a
+            # stale entry) must not change anything - pandas ignores it
+            r['cfgfmt'] = fmt if (fmt is not None and not has_z and rng.random() < 0.3) else None
+            res, r['fmt'], r['pyfmt'], years = 1, None, None, None
             if unit != 's' and rng.random() < 0.6:
                 r['frac'] = rng.randint(0, 6)
             if kind == 'dt64tz':
@@ -444,7 +565,7 @@ def gen_col(rng, name, st, n, target_kind=None, opt=None):
             if shared:
                 a, b, y, h, mi, s = rng.choice(shared['raw'])
                 return epoch_of(y, b, a, h, mi, s) if shared['dmy'] else epoch_of(y, a, b, h, mi, s)
-            s = gen_time(rng)
+            s = gen_time(rng, years)
             return s - s % res
         cells = [cell() for _ in range(n)]
         if all(not isinstance(c, int) for c in cells) and rng.random() < 0.8:
@@ -452,7 +573,7 @@ def gen_col(rng, name, st, n, target_kind=None, opt=None):
                 a, b, y, h, mi, s = shared['raw'][0]
                 cells[rng.randrange(n)] = epoch_of(y, b, a, h, mi, s) if shared['dmy'] else epoch_of(y, a, b, h, mi, s)
             else:
-                s = gen_time(rng)
+                s = gen_time(rng, years)
                 cells[rng.randrange(n)] = s - s % res
         col['r'] = r
     elif st == 'embedding':
@@ -486,7 +607,7 @@ def gen_col(rng, name, st, n, target_kind=None, opt=None):
 def gen_shared_multicat(rng, names, n, raw=None):
     """>= 2 delimiter-joined columns with DIFFERENT separators whose cells are drawn from one pool of raw texts
     (atoms joined by a mixture of the separators): the same text splits differently in each column"""
-    seps = rng.sample(SEPS, len(names))
+    seps = rng.sample(SEPS + [', ', ' | ', '; ', ' / '], len(names))
     if raw is None:
         raw = []
         for _ in range(rng.randint(3, 6)):
@@ -606,6 +727,11 @@ def gen_frame(rng, n=None, ncols=None, target=None, focus=None, level=0, opts=No
         if n <= 64 and rng.random() < 0.2:
             frame['twin'] = True           # the DataFrame is compared with an identically built twin afterwards
             fam.append('alias:input-frame-unchanged')
+        if n <= 64 and ncols <= 16 and rng.random() < 0.12:
+            # the caller writes in place into the tensors of the materialized frame (y, features or both); the DataFrame (against
+            # a twin), the statistics and a conversion of the dataset's own frame are observed afterwards
+            frame['scribble'] = rng.choice(['y', 'feat', 'all', 'all'])
+            fam.append('alias:in-place-write-into-materialized-frame')
     if fam:
         frame['fam'] = fam
     return frame
@@ -842,7 +968,7 @@ def render_cells(col, cells=None):
     if st == 'multicategorical':
         out = []
         box = {'tuple': tuple, 'set': set, 'ndarray': lambda c: np.array(list(c), dtype=object)}.get(r.get('box'), list)
-        pads_all, blanks = r.get('pads'), r.get('blank') or [0]
+        blanks = r.get('blank') or [0]
         for i, c in enumerate(cells):
             if c is None:
                 out.append(_na(r))
@@ -851,11 +977,7 @@ def render_cells(col, cells=None):
             elif not c:
                 out.append(' ' * blanks[i % len(blanks)])
             else:
-                pads = pads_all[i % len(pads_all)] if pads_all else None
-                if pads is None or len(pads) != len(c):
-                    out.append(r['sep'].join(c))
-                else:
-                    out.append(r['sep'].join(' ' * p[0] + t + ' ' * p[1] for t, p in zip(c, pads)))
+                out.append(cell_text(r, c, i))
         return out, r['dtype']
     if st == 'sequence_numerical':
         conv = (lambda x: int(x) if float(x).is_integer() and abs(x) < 2 ** 31 and math.copysign(1, x) * (x == 0) >= 0 else float(x)) \
@@ -986,7 +1108,7 @@ def dataset_kwargs(frame, dictperm=None, with_target=True):
         if st == 'multicategorical':
             sep[name] = r['sep']
         elif st == 'timestamp':
-            fmt[name] = r['fmt'] if r['kind'] == 'str' else None
+            fmt[name] = r['fmt'] if r['kind'] == 'str' else r.get('cfgfmt')
         elif st == 'text_embedded':
             stubs[name] = Stub(r['w'], r['salt'])
             tcfg[name] = TextEmbedderConfig(text_embedder=stubs[name], batch_size=r['batch'])
@@ -1069,6 +1191,34 @@ def frames_identical(a, b):
             if cell_repr(u) != cell_repr(v):
                 return f'column {c!r} row {i}: {cell_repr(u)} vs {cell_repr(v)}'
     return None
+
+
+def scribble(tf, part):
+    """a caller writes IN PLACE into the tensors of a TensorFrame it was handed (label standardisation `y.sub_(m).div_(s)`,
+    clamping, ...): every non-NaN entry of the chosen tensors changes.  Returns the number of tensors written"""
+    import torch
+    done = 0
+
+    def write(t):
+        nonlocal done
+        if not isinstance(t, torch.Tensor) or t.numel() == 0:
+            return
+        with torch.no_grad():
+            if t.is_floating_point():
+                t.mul_(-3.0).add_(1.5)
+            elif t.dtype == torch.bool:
+                t.logical_not_()
+            else:
+                t.add_(7)
+        done += 1
+    if part in ('y', 'all') and tf.y is not None:
+        write(tf.y)
+    if part in ('feat', 'all'):
+        for feat in tf.feat_dict.values():
+            if isinstance(feat, dict):
+                continue
+            write(feat if isinstance(feat, torch.Tensor) else feat.values)
+    return done
 
 
 # ------------------------------------------------------------------------------------------ canonicalisers
